@@ -670,6 +670,8 @@ def check_path_prefix_tests(model: RepoModel, rep, RID: str) -> int:
 
 def _r5_location_independence(model: RepoModel, rep):
     check_path_prefix_tests(model, rep, "C14.R5")
+    from ..generic3 import check_path_string_ops
+    check_path_string_ops(model, rep, "C14.R5", sorted(r for r in model.modules if not (r.startswith("lang/") and r.endswith("_parser.py"))))
     n = 0
     for rel, mod in sorted(model.modules.items()):
         if rel.startswith("lang/") and rel != "lang/lang_analysis.py":
